@@ -19,6 +19,7 @@ import ChemModel.Basic.Num
 import ChemModel.Gen.Units
 import ChemModel.Gen.Dims
 import ChemModel.Model.Units
+import ChemModel.Model.Kinetics
 
 namespace ChemModel.KinUnits
 open ChemModel ChemModel.Units
@@ -113,6 +114,39 @@ def equilibriumCheck (param : PyVal α) (nprod nreac : Int) : Except Err Unit :=
     | none => .error .attributeError
     | some M =>
       if pyEq (unitOfSimplified param) (unitOfSimplified (M.pow (nprod - nreac))) then .ok () else .error .valueError
+
+/-- `c0` of `as_reactions`: `1 * units.molar`, or the int 1 for `units=None` (a rate with `.units` → ValueError "units missing") -/
+def standardConc (kf kb : Option (PyVal α)) (units : Bool) : Except Err (PyVal α) :=
+  if units then (match (molar? : Option (PyVal α)) with | some M => .ok M | none => .error .attributeError)
+  else if (kf.any PyVal.isQty) || (kb.any PyVal.isQty) then .error .valueError else .ok PyVal.one
+
+/-- the two rate constants: `kf = kb * K * c0 ** (nb - nf)` resp. `kb = kf / (K * c0 ** (nb - nf))`;
+    none or both given → ValueError -/
+def ratePair (K : PyVal α) (kf kb : Option (PyVal α)) (nf nb : Int) (c0 : PyVal α) : Except Err (PyVal α × PyVal α) :=
+  match kf, kb with
+  | none, some b => .ok ((b.mul K).mul (c0.pow (nb - nf)), b)
+  | some f, none => .ok (f, f.div (K.mul (c0.pow (nb - nf))))
+  | _, _ => .error .valueError
+
+/-- the two `Reaction(...)` constructor calls with their default checks: forward (order `nf`), then backward (order `nb`) -/
+def checkPair (nf nb : Int) (f b : PyVal α) : Except Err (PyVal α × PyVal α) :=
+  match reactionCheck f nf with
+  | .error e => .error e
+  | .ok _ => match reactionCheck b nb with
+    | .error e => .error e
+    | .ok _ => .ok (f, b)
+
+/-- `Equilibrium.as_reactions(kf=…, kb=…, units=…)` (chemistry.py 1048-1113) → `(kf, kb)` of the forward / backward `Reaction`.
+    `nf = Σ reac`, `nb = Σ prod`; `c0 = 1 * units.molar` or the int 1 (`units=None`; then a rate with `.units` → ValueError);
+    `kf = kb * K * c0 ** (nb - nf)` resp. `kb = kf / (K * c0 ** (nb - nf))`; none or both given → ValueError
+    (`param=(kf, kb)` tuples are not modelled).  Both reactions are built by the `Reaction` constructor with its default
+    checks, i.e. `check_consistent_units(throw=True)` with order `nf` (forward) and `nb` (backward). -/
+def asReactions (K : PyVal α) (kf kb : Option (PyVal α)) (nf nb : Int) (units : Bool) : Except Err (PyVal α × PyVal α) :=
+  match standardConc kf kb units with
+  | .error e => .error e
+  | .ok c0 => match ratePair K kf kb nf nb c0 with
+    | .error e => .error e
+    | .ok p => checkPair nf nb p.1 p.2
 
 /-! ## util/_expr.py: `dedimensionalisation` -/
 
@@ -239,62 +273,58 @@ def postProcessor (ou : OdeUnits α) (outT outC : Option (PyVal α)) (x y p : Li
     | .error e => .error e
     | .ok conc => .ok (time, conc, (p.zip ou.pUnits).map fun ep => timesUnit ep.1 ep.2)
 
-/-! ## mass-action rates -/
+/-! ## mass-action rates: the shared kinetics model of C03 / C04 -/
 
-/-- `MassAction.active_conc_prod` (rates.py 191-195): `result = 1; for k, v in reaction.reac.items(): result *= variables[k] ** v`
-    on plain numbers; an item is (concentration, stoichiometric coefficient) -/
-def activeConcProd (cs : List (α × Nat)) : α :=
-  cs.foldl (fun acc cv => acc * zpow cv.1 (cv.2 : Int)) ((1 : Nat) : α)
-
-/-- `MassAction.__call__` (rates.py 201-206): `rate_coeff * active_conc_prod` -/
-def massActionRate (k : α) (cs : List (α × Nat)) : α := k * activeConcProd cs
-
-/-- the same product on unit-carrying values (`Reaction.rate` / `_validate` with quantities) -/
+/-- `MassAction.active_conc_prod` on unit-carrying values (`Reaction.rate` / `_validate` with quantities):
+    `result = 1; for k, v in reaction.reac.items(): result *= variables[k] ** v` -/
 def activeConcProdPy (cs : List (PyVal α × Nat)) : PyVal α :=
   cs.foldl (fun acc cv => acc.mul (cv.1.pow (cv.2 : Int))) PyVal.one
 
 def massActionRatePy (k : PyVal α) (cs : List (PyVal α × Nat)) : PyVal α := k.mul (activeConcProdPy cs)
 
-/-- a reaction as the ODE right-hand side sees it: reactant items (substance index, coefficient) in `reac` order, and the
-    net stoichiometry per substance -/
+/-- a reaction as `get_odesys` sees it: the `reac` and `prod` dictionaries over substance indices (position in
+    `rsys.substances`), in dict order; the rate constant travels separately -/
 structure Rxn where
   reac : List (Nat × Nat)
-  net : List Int
+  prod : List (Nat × Nat)
   deriving Repr
 
 /-- `sum(reac.values())` -/
 def Rxn.order (r : Rxn) : Int := ((r.reac.map fun p => p.2).sum : Nat)
 
-/-- concentrations of the reactants; a substance index outside `y` is a KeyError (`variables[k]`) -/
-def lookupConcs {β : Type} (y : List β) : List (Nat × Nat) → Except Err (List (β × Nat))
-  | [] => .ok []
-  | (i, n) :: r => match y[i]? with
-    | none => .error .keyError
-    | some c => match lookupConcs y r with
-      | .error e => .error e
-      | .ok cs => .ok ((c, n) :: cs)
+/-- the reaction of the shared kinetics model (`Model/Kinetics.lean`, properties C03/C04) with a plain rate constant -/
+def Rxn.toKin (k : α) (r : Rxn) : Kinetics.Reaction Nat α := { reac := r.reac, prod := r.prod, param := k }
 
-/-- rates of all reactions from unitless constants and unitless concentrations -/
-def reactionRates (ks : List α) (rxns : List Rxn) (y : List α) : Except Err (List α) :=
-  mapExcept (fun kr : α × Rxn => match lookupConcs y kr.2.reac with
-    | .error e => .error e
-    | .ok cs => .ok (massActionRate kr.1 cs)) (ks.zip rxns)
+/-- `[exprs[k] for k in names]` on the rate dictionary: `none` = KeyError -/
+def readAll (rates : List (Nat × α)) : List Nat → Option (List α)
+  | [] => some []
+  | s :: t => match Kinetics.dget? rates s with
+    | none => none
+    | some e => match readAll rates t with
+      | none => none
+      | some es => some (e :: es)
 
-/-- `Σ_r net[r][s] * rate_r` for substance `s` (`ReactionSystem.rates`, the mass-action part; C03 covers it) -/
-def dCdt (rates : List α) (rxns : List Rxn) (s : Nat) : α :=
-  (rates.zip rxns).foldl (fun acc rr => acc + Num.ofInt (rr.2.net.getD s 0) * rr.1) ((0 : Nat) : α)
-
-/-- the right-hand side on plain numbers: what the symbolic system evaluates once everything is unitless
-    (and what a user computes by hand in one fixed unit set) -/
-def plainRhs (ks : List α) (rxns : List Rxn) (y : List α) (ns : Nat) : Except Err (List α) :=
-  match reactionRates ks rxns y with
-  | .error e => .error e
-  | .ok rs => .ok ((List.range ns).map (dCdt rs rxns))
+/-- the right-hand side on plain numbers, as the real pipeline produces it once everything is unitless
+    (and what a user computes by hand in one fixed unit set):
+    * `dydt` calls `rsys.rates(variables, ratexs=r_exprs)` = `Kinetics.sysRates` (C03) with `substance_keys=None`, no CSTR:
+      a dictionary over the substances that OCCUR IN SOME REACTION (`variables[k]` for a reactant outside the state → KeyError);
+    * `SymbolicSys.from_callback(dydt, dep_by_name=True, names=…)` (pyodesys, as modelled for C04 in `OdeBuild.readExprs`)
+      requires one expression per substance — a spectator substance (in `rsys.substances`, in no reaction) makes
+      `get_odesys` raise ValueError ("Callback returned unexpected (3) number of expressions: 2") — and reads `exprs[name]`.
+    `y.getD i 0`: the default is unreachable under the KeyError guard. -/
+def plainRhs [IntCast α] (ks : List α) (rxns : List Rxn) (y : List α) (ns : Nat) : Except Err (List α) :=
+  if (ks.zip rxns).any (fun kr => kr.2.reac.any fun p => decide (y.length ≤ p.1)) then .error .keyError
+  else
+    let rates := Kinetics.sysRates (fun i => y.getD i ((0 : Nat) : α)) ((ks.zip rxns).map fun kr => kr.2.toKin kr.1) none none
+    if rates.length ≠ ns then .error .valueError
+    else match readAll rates (List.range ns) with
+      | none => .error .keyError
+      | some l => .ok l
 
 /-- `odesys.f_cb(*odesys.to_arrays(t, y, ()))` for `get_odesys(rsys, include_params=True, unit_registry=reg)`:
     constants dedimensionalised at construction (ode.py 311-314), concentrations by the `to_arrays` callback;
     the result is unitless, in `conc_unit / time_unit` -/
-def odeRhs (reg : Registry α) (ks : List (PyVal α)) (rxns : List Rxn) (y : List (PyVal α)) (ns : Nat) :
+def odeRhs [IntCast α] (reg : Registry α) (ks : List (PyVal α)) (rxns : List Rxn) (y : List (PyVal α)) (ns : Nat) :
     Except Err (List α) :=
   match mkOdeUnits reg [] true [] with
   | .error e => .error e
@@ -307,7 +337,7 @@ def odeRhs (reg : Registry α) (ks : List (PyVal α)) (rxns : List Rxn) (y : Lis
 /-- the same for `include_params=False` with every rate constant a named parameter (`Reaction(…, 'k1')`):
     the constants arrive through the third `to_arrays` callback, converted with `p_units` built from
     `MassAction.args_dimensionality` -/
-def odeRhsNamed (reg : Registry α) (p : List (PyVal α)) (rxns : List Rxn) (y : List (PyVal α)) (ns : Nat) :
+def odeRhsNamed [IntCast α] (reg : Registry α) (p : List (PyVal α)) (rxns : List Rxn) (y : List (PyVal α)) (ns : Nat) :
     Except Err (List α) :=
   match mkOdeUnits reg [] false (rxns.map fun r => (Gen.Dims.massAction, 0, r.order)) with
   | .error e => .error e
